@@ -321,6 +321,12 @@ class Geo:
         cs = fl(ufs(d["cs"])) if "cs" in d else None
         ics = fl(ufs(d["ics"])) if d.get("ics") is not None else None
         dcs = fl(dcoef(ufs(d["cs"]))) if "cs" in d else None
+        if k == "kl" and d.get("defaults"):
+            return G.KLExpansion(np.linspace(0.0, 1.0, d["nodes"]))
+        if k == "step" and d.get("defaults"):
+            return G.StepExpansion(np.arange(float(d["nodes"])))
+        if k == "image" and d.get("defaults"):
+            return G.Image2D((d["r"], d["c"]))
         if k == "kl":
             return G.KLExpansion(np.linspace(0.0, 1.0, d["nodes"]), decay_rate=float(Fraction(d["decay"])),
                                  normalizer=float(Fraction(d["normalizer"])), num_modes=d["modes"])
@@ -500,6 +506,8 @@ def _style_callable(f, style):
         return f
     if style == "lambda":
         return lambda x: f(x)
+    if style.startswith("name:"):           # a callable whose only argument has the given name
+        return eval("lambda %s: f(%s)" % (style[5:], style[5:]), {"f": f})
     if style == "defaults":
         def g(x, scale=1.0, unused=None):
             return scale * f(x) if scale != 1.0 else f(x)
@@ -549,9 +557,31 @@ def _build_model_core(cuqi, meta, dg_obj, rg_obj):
             raise ValueError("callable received function values of shape %s, written for %s" % (np.shape(x), gs_.fshape))
         return x
 
+    rstyle, bufs = meta.get("rstyle"), {}
+
+    def ret(y, key):
+        """how a user's callable hands its result back: a fresh C array (default), a Fortran-ordered / strided (non
+        C-contiguous) array, one work buffer filled and returned on every call, or an integer array"""
+        if meta.get("intdata") and np.all(np.asarray(y) == np.round(np.asarray(y))):
+            y = np.asarray(y).astype(np.int64)
+        if rstyle == "fortran":
+            y = np.asarray(y)
+            if y.ndim >= 2:
+                return np.asfortranarray(y)
+            big = np.full(2 * y.shape[0], 77, dtype=y.dtype)
+            big[::2] = y
+            return big[::2]
+        if rstyle == "buffer":
+            y = np.asarray(y)
+            if key not in bufs or bufs[key].shape != y.shape or bufs[key].dtype != y.dtype:
+                bufs[key] = np.empty_like(y)
+            np.copyto(bufs[key], y)
+            return bufs[key]
+        return y
+
     def fwd(x):
         y = A @ horner(cs, chk(x, dgs).ravel()) + b
-        return y.reshape(rgs.fshape) if rgs.twod else y
+        return ret(y.reshape(rgs.fshape) if rgs.twod else y, "fwd")
     fwd = _style_callable(fwd, meta.get("fstyle"))
 
     # flat (1-d) Jacobians / gradients have one entry per PARAMETER (shape (range_dim, domain_dim)): for a
@@ -562,7 +592,7 @@ def _build_model_core(cuqi, meta, dg_obj, rg_obj):
     def jac(wrt):
         w = chk(wrt, dgs).ravel() if jt else np.asarray(chk(wrt, dgs)).ravel()
         J = A * horner(dcs, w)[None, :]
-        return J[:, inv] if inv is not None else J
+        return ret(J[:, inv] if inv is not None else J, "jac")
 
     def gdir(direction, wrt):
         chk(wrt, dgs), chk(direction, rgs)
@@ -572,7 +602,7 @@ def _build_model_core(cuqi, meta, dg_obj, rg_obj):
             g = np.asarray(horner(dcs, np.asarray(wrt).ravel())) * (A.T @ np.asarray(direction).ravel())
         else:
             g = horner(dcs, wrt.ravel()) * (A.T @ direction.ravel())
-        return g.reshape(dgs.fshape) if dgs.twod else g
+        return ret(g.reshape(dgs.fshape) if dgs.twod else g, "gdir")
 
     if kind == "jac":
         return Model(fwd, rg_obj, dg_obj, jacobian=jac), fwd
@@ -581,12 +611,12 @@ def _build_model_core(cuqi, meta, dg_obj, rg_obj):
     if kind == "nograd":
         return Model(fwd, rg_obj, dg_obj), fwd
     if kind == "linmat":
-        return LinearModel(A, range_geometry=None if isinstance(rg_obj, int) else rg_obj,
+        return LinearModel(A.astype(np.int64) if meta.get("intdata") else A, range_geometry=None if isinstance(rg_obj, int) else rg_obj,
                            domain_geometry=None if isinstance(dg_obj, int) else dg_obj), None
     if kind == "linfun":
         def adj(y):
             g = A.T @ (np.asarray(y).ravel() if mstyle == "strip" else y.ravel())
-            return g.reshape(dgs.fshape) if dgs.twod else g
+            return ret(g.reshape(dgs.fshape) if dgs.twod else g, "adj")
         return LinearModel(fwd, adj, rg_obj, dg_obj), fwd
     if kind.startswith("pde"):
         from cuqi.pde import SteadyStateLinearPDE
@@ -830,8 +860,11 @@ def mk_input(cuqi, form, vals, gs, gobj_same, model_geom):
         if base == "subpar":
             return S_(np.array([float(x) for x in vals[0]]), is_par=True, geometry=model_geom)
         return S_(shape_fun(gs, vals[0]), is_par=False, geometry=model_geom)
-    if base == "samples":
-        return Samples(np.array([[float(x) for x in col] for col in vals]).T)
+    if base in ("samples", "samplessub"):
+        cls = Samples if base == "samples" else _fn(("samplessubcls",), lambda: type("UserSamples", (Samples,), {}))
+        if not vals:                      # a sample collection with zero samples
+            return cls(np.zeros((gs.pdim, 0)))
+        return cls(np.array([[float(x) for x in col] for col in vals]).T)
     if base == "samplesfun":
         arr = np.stack([shape_fun(gs, col) for col in vals], axis=-1)
         return Samples(arr, is_par=False, is_vec=not gs.twod, geometry=model_geom)
@@ -859,7 +892,7 @@ def coq_vec_input(form, vals, gs_coq, ctor_vec, ctor_arr, ctor_samples):
         return "(%s %s true %s)" % (ctor_arr, Geo(kind="default1d", n=len(vals[0])).coq(), qv(vals[0]))
     if base in ("subpar", "subfun"):
         return "(InSub %s %s %s)" % (gs_coq, cbool(base == "subpar"), qv(vals[0]))
-    if base in ("samples", "samplesfun"):
+    if base in ("samples", "samplesfun", "samplessub"):
         return ctor_samples(vals, base == "samplesfun")
     raise ValueError(form)
 
@@ -886,21 +919,50 @@ def _ws_input(ws, key, obj):
     return obj
 
 
-def _replay_history(cuqi, model, meta, dgs, rgs):
+def _as_geom_obj(g):
+    import cuqi.geometry as G
+    return G._DefaultGeometry1D(g) if isinstance(g, int) else G._DefaultGeometry2D(g) if isinstance(g, tuple) else g
+
+
+def _setup_model(cuqi, meta):
+    """builds the model (with the INITIAL domain geometry meta["dg0"] if the history re-targets it) and, if any call is made
+    on it, a renamed copy `model(Gaussian(name="zcopy"))` that shares every attribute object with the original"""
+    dgs0 = Geo(**meta.get("dg0", meta["dg"]))
+    rgs = Geo(**meta["rg"])
+    model, raw = build_model(cuqi, dict(meta, dg=dgs0.d), dgs0.build(cuqi), rgs.build(cuqi))
+    mcopy = None
+    if meta.get("on_copy") or any(h.get("on_copy") for h in meta.get("history", [])):
+        from cuqi.distribution import Gaussian
+        mcopy = model(Gaussian(np.zeros(dgs0.pdim), 1, name="zcopy"))
+    return model, mcopy
+
+
+def _replay_history(cuqi, model, meta, dgs, rgs, mcopy=None):
     """meta["history"]: earlier calls made on the SAME model object (same model description, other inputs): they are
-    re-made before the call under test -- a model object must not remember anything between calls.  Returns the workspace
-    of caller-owned arrays (None unless meta["inplace"]) and the earlier outputs with their values at the time."""
+    re-made before the call under test -- a model object must not remember anything between calls.  A step may be made on
+    the renamed copy (on_copy), and a step {"op": "setgeom", "dg": spec} assigns another domain geometry to the model (and
+    its copy).  Returns the workspace of caller-owned arrays (None unless meta["inplace"]) and the earlier outputs with
+    their values at the time."""
     ws = {} if meta.get("inplace") else None
     kept = []
+    cur = Geo(**meta.get("dg0", meta["dg"]))
     for h in meta.get("history", []):
         try:
+            tgt = mcopy if h.get("on_copy") and mcopy is not None else model
+            if h["op"] == "setgeom":
+                cur = Geo(**h["dg"])
+                gobj = _as_geom_obj(cur.build(cuqi))
+                model.domain_geometry = gobj
+                if mcopy is not None:
+                    mcopy.domain_geometry = gobj
+                continue
             if h["op"] == "forward":
-                x = _ws_input(ws, ("x", h["form"]), mk_input(cuqi, h["form"], [ufs(c) for c in h["vals"]], dgs, geom_object_for_copy(cuqi, dgs), model.domain_geometry))
-                out = model.forward(x, is_par=h["flag"])
+                x = _ws_input(ws, ("x", h["form"]), mk_input(cuqi, h["form"], [ufs(c) for c in h["vals"]], cur, geom_object_for_copy(cuqi, cur), tgt.domain_geometry))
+                out = tgt.forward(x, is_par=h["flag"])
             else:
-                direction = _ws_input(ws, ("d", h["dform"]), mk_ginput(cuqi, h["dform"], ufs(h["d"]), rgs, geom_object_for_copy(cuqi, rgs), model.range_geometry))
-                wrt = _ws_input(ws, ("w", h["wform"]), mk_ginput(cuqi, h["wform"], ufs(h["w"]), dgs, geom_object_for_copy(cuqi, dgs), model.domain_geometry))
-                out = model.gradient(direction, wrt, is_direction_par=h["dform"].split("=")[0] != "fun", is_wrt_par=h["wform"].split("=")[0] != "fun")
+                direction = _ws_input(ws, ("d", h["dform"]), mk_ginput(cuqi, h["dform"], ufs(h["d"]), rgs, geom_object_for_copy(cuqi, rgs), tgt.range_geometry))
+                wrt = _ws_input(ws, ("w", h["wform"]), mk_ginput(cuqi, h["wform"], ufs(h["w"]), cur, geom_object_for_copy(cuqi, cur), tgt.domain_geometry))
+                out = tgt.gradient(direction, wrt, is_direction_par=h["dform"].split("=")[0] != "fun", is_wrt_par=h["wform"].split("=")[0] != "fun")
             kept.append((out, _snapshot(out)))
         except Exception:
             pass
@@ -936,17 +998,18 @@ def tol_cell(meta):
 def run_forward_case(cuqi, meta):
     """meta: op=forward, mk, A, cs, b, dg, rg, form, vals (list of columns, strings), flag"""
     dgs, rgs = Geo(**meta["dg"]), Geo(**meta["rg"])
-    dg_obj, rg_obj = dgs.build(cuqi), rgs.build(cuqi)
-    model, raw = build_model(cuqi, meta, dg_obj, rg_obj)
+    model, mcopy = _setup_model(cuqi, meta)
     vals = [ufs(c) for c in meta["vals"]]
     form, flag = meta["form"], meta["flag"]
-    ws, kept = _replay_history(cuqi, model, meta, dgs, rgs)
+    ws, kept = _replay_history(cuqi, model, meta, dgs, rgs, mcopy)
+    if meta.get("on_copy"):
+        model = mcopy
     x = cast_input(cuqi, mk_input(cuqi, form, vals, dgs, geom_object_for_copy(cuqi, dgs), model.domain_geometry), meta.get("dt"))
     x = _ws_input(ws, ("x", form), odd_flag(x, meta.get("ipk")))
     before = _snapshot(x)
     try:
         if meta.get("kw"):      # the input bound by keyword
-            out = model.forward(is_par=flag, **{model._non_default_args[0]: x})
+            out = model.forward(is_par=flag, **{"zcopy" if meta.get("on_copy") else "x": x})      # the DECLARED name
         else:
             out = model.forward(x, is_par=flag) if not meta.get("call") else model(x, is_par=flag)
         kind, cols, ok = observe_output(out, model.range_geometry)
@@ -969,7 +1032,7 @@ def run_forward_case(cuqi, meta):
             if len(f) != len(A[0]):
                 raise Refuse("shape")
             ecols.append(rgs.o_fun2par(o_F(A, cs, b, f)))
-        ekind = {"par": 0, "fun": 0, "arrpar": 1, "arrfun": 1, "arrdefault": 1, "samples": 2, "samplesfun": 2, "subpar": 1, "subfun": 1}[base]
+        ekind = {"par": 0, "fun": 0, "arrpar": 1, "arrfun": 1, "arrdefault": 1, "samples": 2, "samplesfun": 2, "samplessub": 2, "subpar": 1, "subfun": 1}[base]
         exp = ("val", ekind, ecols) + ((F(1, 10 ** 9),) if tol_cell(meta) else ())
     except Refuse as e:
         exp = ("err", str(e))
@@ -1058,17 +1121,18 @@ def mk_ginput(cuqi, form, vals, gs, copy_geom, model_geom):
 
 def run_gradient_case(cuqi, meta):
     dgs, rgs = Geo(**meta["dg"]), Geo(**meta["rg"])
-    dg_obj, rg_obj = dgs.build(cuqi), rgs.build(cuqi)
-    model, raw = build_model(cuqi, meta, dg_obj, rg_obj)
+    model, mcopy = _setup_model(cuqi, meta)
     d, w = ufs(meta["d"]), ufs(meta["w"])
     dform, wform = meta["dform"], meta["wform"]
+    ws, kept = _replay_history(cuqi, model, meta, dgs, rgs, mcopy)
+    if meta.get("on_copy"):
+        model = mcopy
     direction = mk_ginput(cuqi, dform, d, rgs, geom_object_for_copy(cuqi, rgs), model.range_geometry)
     wrt = mk_ginput(cuqi, wform, w, dgs, geom_object_for_copy(cuqi, dgs), model.domain_geometry)
     direction, wrt = cast_input(cuqi, direction, meta.get("ddt")), cast_input(cuqi, wrt, meta.get("wdt"))
     direction, wrt = odd_flag(direction, meta.get("dipk")), odd_flag(wrt, meta.get("wipk"))
     dpar = dform.split("=")[0] not in ("fun",) if "dpar" not in meta else meta["dpar"]
     wpar = wform.split("=")[0] not in ("fun",) if "wpar" not in meta else meta["wpar"]
-    ws, kept = _replay_history(cuqi, model, meta, dgs, rgs)
     direction, wrt = _ws_input(ws, ("d", dform), direction), _ws_input(ws, ("w", wform), wrt)
     before = (_snapshot(direction), _snapshot(wrt))
     try:
@@ -1239,13 +1303,23 @@ def rename_case(cuqi, meta, q):
                 impl_fail=fail, signature=classify(meta, fail) if fail else "")
 
 
+SIG_ARGNAME = "get_non_default_args|forward-argument-named-args-or-kwargs:dropped-by-name"
+
+
 def bind_case(cuqi, meta, q):
     dgs, rgs = Geo(**meta["dg"]), Geo(**meta["rg"])
+    declared = [meta.get("argname", "x")]      # what the callable DECLARES (not read back from the model)
+    if meta.get("argname") and meta["mk"] in ("jac", "dir", "nograd", "linfun"):
+        meta = dict(meta, fstyle="name:" + meta["argname"])
+    elif meta.get("argname"):
+        declared = ["x"]
     model, _ = build_model(cuqi, meta, dgs.build(cuqi), rgs.build(cuqi))
     if meta.get("two_args"):       # a forward callable with two non-default arguments: every call is refused (one input only)
         from cuqi.model import Model
         model = Model(lambda x, y: x, rgs.build(cuqi), dgs.build(cuqi))
+        declared = ["x", "y"]
     if meta.get("renamed"):
+        declared = [meta["renamed"]]
         from cuqi.distribution import Gaussian
         try:
             model = model(Gaussian(np.zeros(dgs.pdim), 1, name=meta["renamed"]))
@@ -1263,13 +1337,23 @@ def bind_case(cuqi, meta, q):
         accepted = True
     except ValueError:
         accepted = False
-    argname = fp["args"][0]
-    expect = ((meta["npos"] == 1 and not meta["kws"]) or (meta["npos"] == 0 and meta["kws"] == [argname])) and len(fp["args"]) == 1
+    argname = declared[0]
+    # `is_par` is forward()'s own keyword: an input of that name can only be given positionally (accepted refusal)
+    expect = ((meta["npos"] == 1 and not meta["kws"]) or (meta["npos"] == 0 and meta["kws"] == [argname] and argname != "is_par")) and len(declared) == 1
     fail = None if accepted == expect else "forward(%d positional, keywords %s) on a model with argument %r: %s" % (
         meta["npos"], meta["kws"], argname, "accepted" if accepted else "refused")
-    expr = "check_bind %s %s %s %s" % (coq_fp(fp), cnat(meta["npos"]), clist([cstr(k) for k in meta["kws"]]), cbool(accepted))
-    return Case(expr=expr, meta=meta, cell="args/npos=%d,kws=%d%s" % (meta["npos"], len(meta["kws"]), ",renamed" if meta.get("renamed") else ""),
-                kind="DECISION", impl_fail=fail, signature=classify(meta, fail) if fail else "")
+    if fp["args"] != declared:
+        fail = "the model reports the inputs %s, the forward callable declares %s" % (fp["args"], declared)
+    expr = "check_bind %s %s %s %s%s" % (coq_fp(dict(fp, args=declared)), cnat(meta["npos"]), clist([cstr(k) for k in meta["kws"]]), cbool(accepted),
+                                         "" if fp["args"] == declared else " && false")
+    if argname == "is_par" and meta["kws"] == ["is_par"]:
+        expr = cbool(not accepted)      # (the Coq binding model does not know about forward()'s reserved keyword)
+    sig = ""
+    if fail:
+        sig = SIG_ARGNAME if argname in ("args", "kwargs") and meta["mk"] in ("jac", "dir", "nograd", "linfun") else classify(meta, fail)
+    return Case(expr=expr, meta=meta, cell="args/npos=%d,kws=%d%s%s" % (meta["npos"], len(meta["kws"]), ",renamed" if meta.get("renamed") else "",
+                                                                      ",name=" + argname if meta.get("argname") else ""),
+                kind="DECISION", impl_fail=fail, signature=sig)
 
 
 # ------------------------------------------------------------------------------------------------
@@ -1932,6 +2016,147 @@ def run(ctx):
                 add(gradient_case, meta)
                 history.append({k_: v_ for k_, v_ in meta.items() if k_ in ("op", "dform", "wform", "d", "w")})
 
+    # =========================== round-4 lesson families (L14 - L26), always ===========================
+    aff_l, iaff_l = [1, 2], [F(-1, 2), F(1, 2)]
+    m_aff = lambda n, **k: Geo(kind="mapped", n=n, cs=fs(aff_l), ics=fs(iaff_l), **k)
+
+    def nonlin(mm):
+        if ufs(mm["cs"])[2:] in ([], [0]):
+            mm["cs"] = fs([0, 1, 1])
+        return mm
+
+    # L14 life-cycle of the refusals + L25 shallow copies: one model object whose domain geometry is re-assigned BETWEEN calls
+    # (gradient possible -> refused -> possible again), calls alternating between the model and its renamed copy (which shares
+    # every attribute object, e.g. the PDE); every call compared, refusals included
+    for mk, g_ok, g_no, rg, with_op in [("jac", m_aff(3, grad=True), m_aff(3), Geo(kind="cont1d", n=2), False),
+                                        ("dir", Geo(kind="cont1d", n=3), Geo(kind="step", nodes=3, steps=3, proj="max"), Geo(kind="discrete", n=2), False),
+                                        ("pde_gw", m_aff(3, grad=True), Geo(kind="user", n=3, cs=fs(aff_l), ics=fs(iaff_l)), Geo(kind="cont1d", n=3), True),
+                                        ("pde_jw", Geo(kind="discrete", n=2), m_aff(2), Geo(kind="cont1d", n=2), True),
+                                        ("linmat", Geo(kind="cont1d", n=3), m_aff(3), Geo(kind="cont1d", n=2), False)]:
+        mm = nonlin(rand_model(rng, mk, g_ok.nfun, rg.nfun)) if mk not in ("linmat",) else rand_model(rng, mk, g_ok.nfun, rg.nfun)
+        if with_op:
+            mm["pde_op"] = rand_unit_triangular(rng, rg.nfun)
+        history, cur = [], g_ok
+        plan = ["grad", "fwd", "copy:grad", "set:no", "grad", "copy:fwd", "fwd", "copy:grad", "set:ok", "grad", "copy:fwd", "grad", "fwd", "copy:grad"]
+        for step in plan:
+            if step.startswith("set:"):
+                cur = g_no if step == "set:no" else g_ok
+                history.append({"op": "setgeom", "dg": cur.d})
+                continue
+            on_copy = step.startswith("copy:")
+            kind = step.split(":")[-1]
+            p = rand_vec(rng, cur.pdim, halves=False)
+            if kind == "fwd":
+                form = rng.choice(["par", "arrpar", "fun"])
+                meta = dict(op="forward", mk=mk, dg=cur.d, dg0=g_ok.d, rg=rg.d, form=form, vals=[fs(cur.o_par2fun(p) if form == "fun" else p)],
+                            flag=form != "fun", call=False, history=list(history), on_copy=on_copy, kw=True, **mm)
+                add(forward_case, meta)
+                history.append({k_: v_ for k_, v_ in meta.items() if k_ in ("op", "form", "vals", "flag", "on_copy")})
+            else:
+                dform, wform = rng.choice([("par", "par"), ("arrpar", "arrpar"), ("par", "arrpar")])
+                meta = dict(op="gradient", mk=mk, dg=cur.d, dg0=g_ok.d, rg=rg.d, dform=dform, wform=wform, d=fs(rand_vec(rng, rg.pdim)), w=fs(p),
+                            history=list(history), on_copy=on_copy, **mm)
+                add(gradient_case, meta)
+                history.append({k_: v_ for k_, v_ in meta.items() if k_ in ("op", "dform", "wform", "d", "w", "on_copy")})
+
+    # L18 exact zeros: all-zero inputs / points / directions through maps with par2fun(0) != 0, matrices with a zero column and a zero row
+    for dg in [m_aff(3, grad=True), Geo(kind="cont1d", n=3), Geo(kind="step", nodes=4, steps=2, proj="min", grad=True), Geo(kind="image", r=2, c=2, order="F")]:
+        for rg in [Geo(kind="cont1d", n=2), m_aff(3)]:
+            for mk in ["jac", "linfun", "pde_gw"]:
+                if not model_allowed(mk, dg, rg):
+                    continue
+                mm = rand_model(rng, mk, dg.nfun, rg.nfun)
+                A_ = [[Fraction(a) for a in row] for row in mm["A"]]
+                for r_ in range(len(A_)):
+                    A_[r_][0] = Fraction(0)                 # a zero column ...
+                A_[-1] = [Fraction(0)] * len(A_[-1])        # ... and a zero row
+                if all(a == 0 for row in A_ for a in row):
+                    A_[0][-1] = Fraction(1)
+                mm["A"] = [[str(a) for a in row] for row in A_]
+                z = [F(0)] * dg.pdim
+                for form in ["par", "fun", "arrpar", "arrfun", "samples"]:
+                    cols = [z, rand_vec(rng, dg.pdim, halves=False), z] if form == "samples" else [z]
+                    isfun = form in ("fun", "arrfun")
+                    add(forward_case, dict(op="forward", mk=mk, dg=dg.d, rg=rg.d, form=form, vals=[fs(dg.o_par2fun(c) if isfun else c) for c in cols],
+                                           flag=form != "fun", call=False, **mm))
+                if rg.identity_like:
+                    for dform, wform, dz, wz in [("par", "par", False, True), ("par", "arrpar", True, True), ("arrpar", "arrfun", True, False), ("par", "fun", False, True)]:
+                        p = z if wz else rand_vec(rng, dg.pdim, halves=False)
+                        dv = [F(0)] * rg.pdim if dz else rand_vec(rng, rg.pdim)
+                        add(gradient_case, dict(op="gradient", mk=mk, dg=dg.d, rg=rg.d, dform=dform, wform=wform, d=fs(dv),
+                                                w=fs(dg.o_par2fun(p) if wform in ("fun", "arrfun") else p), **mm))
+
+    # L19 how user callables hand their result back (Fortran-ordered / strided arrays, one reused work buffer) and L20 integer data
+    # (integer matrices, callables returning integer arrays) through non-integer range maps
+    for rstyle in ["fortran", "buffer"]:
+        for dg, rg in [(Geo(kind="cont1d", n=3), Geo(kind="image", r=2, c=3, order="C")), (Geo(kind="image", r=2, c=3, order="C"), Geo(kind="image", r=3, c=2, order="F")),
+                       (m_aff(3, grad=True), Geo(kind="cont2d", r=2, c=2)), (Geo(kind="cont2d", r=3, c=2), Geo(kind="cont1d", n=2)),
+                       (Geo(kind="image", r=2, c=2, order="F"), m_aff(3))]:
+            for mk in ["jac", "dir", "linfun"]:
+                mm = rand_model(rng, mk, dg.nfun, rg.nfun)
+                for form in ["par", "arrfun", "samples", "samplesfun"]:
+                    isfun = form in ("arrfun", "samplesfun")
+                    cols = [rand_vec(rng, dg.pdim, halves=False) for _ in range(3 if form.startswith("samples") else 1)]
+                    add(forward_case, dict(op="forward", mk=mk, dg=dg.d, rg=rg.d, form=form, vals=[fs(dg.o_par2fun(c) if isfun else c) for c in cols],
+                                           flag=form != "samplesfun", call=False, rstyle=rstyle, **mm))
+                if rg.identity_like and (dg.identity_like or dg.has_grad):
+                    for dform, wform in [("par", "par"), ("fun", "arrfun")]:
+                        p = rand_vec(rng, dg.pdim, halves=False)
+                        add(gradient_case, dict(op="gradient", mk=mk, dg=dg.d, rg=rg.d, dform=dform, wform=wform, d=fs(rg.o_par2fun(rand_vec(rng, rg.pdim)) if dform == "fun" else rand_vec(rng, rg.pdim)),
+                                                w=fs(dg.o_par2fun(p) if wform == "arrfun" else p), rstyle=rstyle, **mm))
+    for dg in [Geo(kind="cont1d", n=4), m_aff(4), Geo(kind="discrete", n=4)]:
+        for rg in [Geo(kind="step", nodes=4, steps=2, proj="mean"), m_aff(4), Geo(kind="step", nodes=4, steps=1, proj="mean")]:
+            for mk in ["linmat", "jac", "linfun"]:
+                mm = rand_model(rng, mk, dg.nfun, rg.nfun)
+                mm["A"] = [[str(2 * int(Fraction(a)) + 1) for a in row] for row in mm["A"]]      # odd integers: means of two are non-integer
+                if mk == "jac":
+                    mm["cs"], mm["b"] = fs([1, 1, 1]), fs([1] * rg.nfun)
+                for form in ["par", "arrpar", "samples"]:
+                    cols = [rand_vec(rng, dg.pdim, halves=False) for _ in range(2 if form == "samples" else 1)]
+                    add(forward_case, dict(op="forward", mk=mk, dg=dg.d, rg=rg.d, form=form, vals=[fs(c) for c in cols], flag=True, call=False,
+                                           intdata=True, dt=rng.choice(["int64", "int32", None]), **mm))
+
+    # L21 degenerate counts: a sample collection with ZERO samples (Ns = 0 is falsy), with one sample; L23 exact type vs subclass: a
+    # user subclass of Samples
+    for dg in [Geo(kind="cont1d", n=3), m_aff(3), Geo(kind="step", nodes=4, steps=2, proj="max"), Geo(kind="image", r=2, c=2, order="F")]:
+        for rg in [Geo(kind="cont1d", n=2), m_aff(3)]:
+            mk = rng.choice(["jac", "linfun", "pde_gw"])
+            if not model_allowed(mk, dg, rg):
+                mk = "jac"
+            mm = rand_model(rng, mk, dg.nfun, rg.nfun)
+            for form, ncol in [("samples", 0), ("samples", 1), ("samplessub", 0), ("samplessub", 1), ("samplessub", 3)]:
+                cols = [rand_vec(rng, dg.pdim, halves=False) for _ in range(ncol)]
+                add(forward_case, dict(op="forward", mk=mk, dg=dg.d, rg=rg.d, form=form, vals=[fs(c) for c in cols], flag=True, call=rng.random() < 0.5, **mm))
+
+    # L22 the SHIPPED DEFAULTS of the geometry constructors (StepExpansion(grid): 3 steps, 'mean'; KLExpansion(grid): decay 2.5,
+    # normalizer 12, all modes; Image2D(shape): order C)
+    dflt = [Geo(kind="step", nodes=6, steps=3, proj="mean", defaults=True), Geo(kind="kl", nodes=4, modes=4, decay="5/2", normalizer="12", defaults=True),
+            Geo(kind="image", r=2, c=3, defaults=True)]
+    for g_ in dflt:
+        for side in ["domain", "range"]:
+            dg = g_ if side == "domain" else Geo(kind="cont1d", n=3)
+            rg = g_ if side == "range" else Geo(kind="cont1d", n=2)
+            for mk in ["jac", "linfun"]:
+                mm = rand_model(rng, mk, dg.nfun, rg.nfun)
+                for form in ["par", "fun", "arrpar", "arrfun=copy", "samples"]:
+                    isfun = form.split("=")[0] in ("fun", "arrfun")
+                    cols = [rand_vec(rng, dg.pdim, halves=False) for _ in range(2 if form == "samples" else 1)]
+                    add(forward_case, dict(op="forward", mk=mk, dg=dg.d, rg=rg.d, form=form, vals=[fs(dg.o_par2fun(c) if isfun else c) for c in cols],
+                                           flag=form != "fun", call=False, **mm))
+
+    # L26 large offsets / scales (dyadic, exact): inputs scaled by 2^10, offsets of 2^20
+    for dg in [Geo(kind="cont1d", n=3), m_aff(3, grad=True), Geo(kind="step", nodes=4, steps=2, proj="mean", grad=True)]:
+        for rg in [Geo(kind="cont1d", n=2), m_aff(3), Geo(kind="step", nodes=2, steps=2, proj="mean")]:
+            mk = rng.choice(["jac", "dir", "pde_gw"])
+            mm = rand_model(rng, mk, dg.nfun, rg.nfun)
+            mm["b"] = fs([2 ** 20 + rng.randint(-3, 3) for _ in range(rg.nfun)])
+            for form in ["par", "arrpar", "samples"]:
+                cols = [[F(1024 * rng.randint(-3, 3) + rng.randint(-2, 2)) for _ in range(dg.pdim)] for _ in range(2 if form == "samples" else 1)]
+                add(forward_case, dict(op="forward", mk=mk, dg=dg.d, rg=rg.d, form=form, vals=[fs(c) for c in cols], flag=True, call=False, **mm))
+            if rg.identity_like:
+                p = [F(1024 * rng.randint(-3, 3) + rng.randint(-2, 2)) for _ in range(dg.pdim)]
+                add(gradient_case, dict(op="gradient", mk=mk, dg=dg.d, rg=rg.d, dform="par", wform="arrpar", d=fs([F(1024 * rng.randint(1, 3)) for _ in range(rg.pdim)]), w=fs(p), **mm))
+
     # ---------------- rename on a distribution; argument binding ----------------
     for rep in range(ctx.n(2, 10)):
         for mki, mk in enumerate(MODEL_KINDS):
@@ -1951,6 +2176,11 @@ def run(ctx):
                 renamed = rng.choice([None, "z"])
                 meta = dict(op="bind", mk=mk, dg=dg.d, rg=rg.d, npos=npos, kws=kws, renamed=renamed, p=fs(rand_vec(rng, dg.pdim)), **mm)
                 add(bind_case, meta)
+            if rep == 0:      # L17 name coincidences: the input named like Python's / forward()'s own special names
+                for nm in ["args", "kwargs", "is_par", "self_", "forward", "x"]:
+                    for npos, kws in [(1, []), (0, [nm]), (0, ["x"] if nm != "x" else ["y"])]:
+                        add(bind_case, dict(op="bind", mk=mk, dg=dg.d, rg=rg.d, npos=npos, kws=kws, renamed=None, argname=nm, p=fs(rand_vec(rng, dg.pdim)), **mm))
+                    add(bind_case, dict(op="bind", mk=mk, dg=dg.d, rg=rg.d, npos=0, kws=[nm], renamed=nm, p=fs(rand_vec(rng, dg.pdim)), **mm))
             if rep == 0:      # forward callable with two inputs: every way of calling it is refused
                 for npos, kws in [(1, []), (2, []), (0, ["x"]), (0, ["x", "y"]), (1, ["y"]), (3, [])]:
                     add(bind_case, dict(op="bind", mk=mk, dg=dg.d, rg=rg.d, npos=npos, kws=kws, renamed=None, two_args=True,
